@@ -120,16 +120,25 @@ def accepts (o : State × List Reply) (post : State) (replies : String) : Bool :
 /-- `<pre> <op> <post> <replies>` groups of a history line -/
 def checkGroups (cfg : Cfg) : Nat → List String → String
   | _, [] => "accept"
-  | k, pre :: op :: post :: replies :: rest =>
-    match parseState pre, parseOp op, parseState post with
-    | some pre, some op, some post =>
-      let outs := step cfg pre op
-      if outs.any (fun o => accepts o post replies) then checkGroups cfg (k + 1) rest
-      else s!"reject step={k} op={showOp op} want=" ++ showList (outs.map showOutcome) " || "
-    | none, _, _ => s!"bad-pre step={k}"
-    | _, none, _ => s!"bad-op step={k}"
-    | _, _, none => s!"bad-post step={k}"
-  | k, _ => s!"bad-group step={k}"
+  | k, tok :: rest =>
+    match tok.toList with
+    | 'c' :: 'f' :: 'g' :: '=' :: cs =>
+      -- the server was restarted under another configuration: the following steps are judged under it
+      match parseCfg (String.ofList cs) with
+      | some cfg' => checkGroups cfg' k rest
+      | none => s!"bad-cfg step={k}"
+    | _ =>
+      match rest with
+      | op :: post :: replies :: rest' =>
+        match parseState tok, parseOp op, parseState post with
+        | some pre, some op, some post =>
+          let outs := step cfg pre op
+          if outs.any (fun o => accepts o post replies) then checkGroups cfg (k + 1) rest'
+          else s!"reject step={k} op={showOp op} want=" ++ showList (outs.map showOutcome) " || "
+        | none, _, _ => s!"bad-pre step={k}"
+        | _, none, _ => s!"bad-op step={k}"
+        | _, _, none => s!"bad-post step={k}"
+      | _ => s!"bad-group step={k}"
 
 def handle (cmd : String) (args : List String) : Option String :=
   match cmd, args with
